@@ -1,285 +1,15 @@
-import JadeModel.Model.System
+import JadeModel.Proofs.SystemBase
+import JadeModel.Proofs.SystemRoleStep
+import JadeModel.Proofs.SystemOrphanStep
+import JadeModel.Proofs.SystemBatchLocStep
+import JadeModel.Proofs.SystemBatchJobsStep
+import JadeModel.Proofs.SystemBatchIdsStep
+import JadeModel.Proofs.SystemBatchNodupStep
 
-/-! Invariants of the system model (`Jade.Sys.step`), each preserved by every accepted op. -/
-
-namespace Jade.Sys
-
-/-- the process is between a successful promotion and its demotion -/
-def holds : SPc → Bool
-  | .fresh => false
-  | .gone => false
-  | _ => true
-
-/-- the process may still act on the marker it created -/
-def owns (a : Bool) (x : SubP) : Bool :=
-  a && x.hasMarker && (x.pc == .marked || x.pc == .persisted)
-
-/-- the marker of a crashed round: nobody will remove it, nobody can create one -/
-def Orphan (s : Sys) : Prop :=
-  s.marker = true ∧ ∀ q a y, s.procs q = .sub a y → owns a y = false
-
-/-! ### basic facts about the process table -/
-
-@[simp] theorem procs_setProc (s : Sys) (p q : Pid) (x : Proc) :
-    (setProc s p x).procs q = if q = p then x else s.procs q := rfl
-
-@[simp] theorem procs_setSub (s : Sys) (p q : Pid) (x : SubP) :
-    (setSub s p x).procs q = if q = p then .sub true x else s.procs q := rfl
-
-@[simp] theorem procs_setNode (s : Sys) (p q : Pid) (x : NodeP) :
-    (setNode s p x).procs q = if q = p then .node true x else s.procs q := rfl
-
-theorem getSub_eq {s : Sys} {p : Pid} {x : SubP} (h : getSub s p = some x) : s.procs p = .sub true x := by
-  unfold getSub at h
-  split at h
-  · next y hy => cases h; exact hy
-  · cases h
-
-theorem getNode_eq {s : Sys} {p : Pid} {x : NodeP} (h : getNode s p = some x) : s.procs p = .node true x := by
-  unfold getNode at h
-  split at h
-  · next y hy => cases h; exact hy
-  · cases h
-
-@[simp] theorem setSub_fields (s : Sys) (p : Pid) (x : SubP) :
-    (setSub s p x).disk = s.disk ∧ (setSub s p x).submitter = s.submitter ∧
-    (setSub s p x).marker = s.marker ∧ (setSub s p x).batches = s.batches ∧
-    (setSub s p x).processed = s.processed ∧ (setSub s p x).nodeFile = s.nodeFile ∧
-    (setSub s p x).slurm = s.slurm ∧ (setSub s p x).starts = s.starts ∧ (setSub s p x).sc = s.sc ∧
-    (setSub s p x).lateSbatch = s.lateSbatch ∧ (setSub s p x).completions = s.completions ∧
-    (setSub s p x).summaries = s.summaries := by
-  simp [setSub, setProc]
-
-@[simp] theorem setNode_fields (s : Sys) (p : Pid) (x : NodeP) :
-    (setNode s p x).disk = s.disk ∧ (setNode s p x).submitter = s.submitter ∧
-    (setNode s p x).marker = s.marker ∧ (setNode s p x).batches = s.batches ∧
-    (setNode s p x).processed = s.processed ∧ (setNode s p x).nodeFile = s.nodeFile ∧
-    (setNode s p x).slurm = s.slurm ∧ (setNode s p x).starts = s.starts ∧ (setNode s p x).sc = s.sc ∧
-    (setNode s p x).lateSbatch = s.lateSbatch ∧ (setNode s p x).completions = s.completions ∧
-    (setNode s p x).summaries = s.summaries := by
-  simp [setNode, setProc]
-
-@[simp] theorem setProc_fields (s : Sys) (p : Pid) (x : Proc) :
-    (setProc s p x).disk = s.disk ∧ (setProc s p x).submitter = s.submitter ∧
-    (setProc s p x).marker = s.marker ∧ (setProc s p x).batches = s.batches ∧
-    (setProc s p x).processed = s.processed ∧ (setProc s p x).nodeFile = s.nodeFile ∧
-    (setProc s p x).slurm = s.slurm ∧ (setProc s p x).starts = s.starts ∧ (setProc s p x).sc = s.sc ∧
-    (setProc s p x).lateSbatch = s.lateSbatch ∧ (setProc s p x).completions = s.completions ∧
-    (setProc s p x).summaries = s.summaries := by
-  simp [setProc]
-
-/-! ### the role invariant (C10 at system level; the backbone of C01/C11) -/
-
-structure RoleInv (s : Sys) : Prop where
-  /-- whoever is past promotion and before demotion — alive or dead — is the submitter on disk -/
-  holder : ∀ q a y, s.procs q = .sub a y → holds y.pc = true → s.submitter = some q
-  /-- a marker flag in a process means the marker file exists and the process holds the role -/
-  markerOf : ∀ q a y, s.procs q = .sub a y → y.hasMarker = true → s.marker = true ∧ holds y.pc = true
-  /-- in the submit phase the process owns the marker -/
-  marked : ∀ q a y, s.procs q = .sub a y → (y.pc = .marked ∨ y.pc = .persisted) → y.hasMarker = true
-  /-- batches handed out but not yet persisted exist only while the marker is held -/
-  pendMarker : ∀ q a y, s.procs q = .sub a y → y.pend ≠ [] → y.hasMarker = true
-  /-- after `update_job_status` nothing is pending -/
-  persistedPend : ∀ q a y, s.procs q = .sub a y → y.pc = .persisted → y.pend = []
-
-theorem roleInv_init (sc : Scn) : RoleInv (init sc) := by
-  constructor <;> intro q a y h <;> simp [init] at h
-
-end Jade.Sys
+/-! Invariants of the system model (`Jade.Sys.step`), each preserved by every accepted op.
+    Definitions: `SystemBase`; the step lemmas are in separate files so that they compile in parallel. -/
 
 namespace Jade.Sys
-
-theorem getSub_iff (s : Sys) (p : Pid) (x : SubP) : getSub s p = some x ↔ s.procs p = .sub true x := by
-  constructor
-  · exact getSub_eq
-  · intro h; simp [getSub, h]
-
-theorem getNode_iff (s : Sys) (p : Pid) (x : NodeP) : getNode s p = some x ↔ s.procs p = .node true x := by
-  constructor
-  · exact getNode_eq
-  · intro h; simp [getNode, h]
-
-set_option linter.unusedSimpArgs false
-
-/-- unfold one accepted step into its cases -/
-macro "step_cases" h:ident : tactic => `(tactic|
-  (simp only [step] at $h:ident
-   repeat' split at $h:ident
-   all_goals first | cases $h:ident | skip
-   all_goals try simp only [getSub_iff, getNode_iff] at *))
-
-macro "frame_simp" "at" hq:ident : tactic => `(tactic|
-  try simp only [procs_setSub, procs_setNode, procs_setProc, setSub_fields, setNode_fields, setProc_fields] at $hq:ident ⊢)
-
-macro "frame_goal" : tactic => `(tactic|
-  try simp only [procs_setSub, procs_setNode, procs_setProc, setSub_fields, setNode_fields, setProc_fields])
-
-set_option maxHeartbeats 2000000 in
-theorem roleInv_step {s s' : Sys} {op : Op} (hi : RoleInv s) (h : step s op = some s') : RoleInv s' := by
-  obtain ⟨h1, h2, h3, h4, h5⟩ := hi
-  cases op <;> step_cases h <;>
-    (constructor <;> intro q a y hq <;> frame_simp at hq <;> grind [holds, SubP.load])
-
-end Jade.Sys
-
-namespace Jade.Sys
-
-/-- the in-memory state of whoever the `submitter` field names (alive or dead) -/
-def holderSub (s : Sys) : Option SubP :=
-  match s.submitter with
-  | some q => (match s.procs q with
-    | .sub _ y => some y
-    | _ => none)
-  | none => none
-
-def holderPend (s : Sys) : List JobId :=
-  match holderSub s with
-  | some y => y.pend
-  | none => []
-
-def holderBidx (s : Sys) : Nat :=
-  match holderSub s with
-  | some y => y.bidx
-  | none => 0
-
-/-- every batch handed out is accounted for: on disk, or pending in the role holder's memory, or
-    behind the marker of a crashed round (after which nobody submits again) -/
-structure BatchInv (s : Sys) : Prop where
-  role : RoleInv s
-  /-- the holder's copy never regresses a job to NOT_SUBMITTED -/
-  locSt : ∀ q a y, s.procs q = .sub a y → holds y.pc = true → ∀ j, s.disk.st j ≠ .ns → y.loc.st j ≠ .ns
-  locBidx : ∀ q a y, s.procs q = .sub a y → holds y.pc = true → s.disk.bidx ≤ y.bidx
-  locBidxEq : ∀ q a y, s.procs q = .sub a y → holds y.pc = true → y.pend = [] → y.bidx = s.disk.bidx
-  jobs : ∀ b ∈ s.batches, ∀ j ∈ b.jobs, s.disk.st j ≠ .ns ∨ j ∈ holderPend s ∨ Orphan s
-  ids : ∀ b ∈ s.batches, b.bid < s.disk.bidx ∨ b.bid < holderBidx s ∨ Orphan s
-  jobsNodup : (s.batches.flatMap (·.jobs)).Nodup
-  idsNodup : (s.batches.map (·.bid)).Nodup
-
-theorem batchInv_init (sc : Scn) : BatchInv (init sc) := by
-  refine ⟨roleInv_init sc, ?_, ?_, ?_, ?_, ?_, ?_, ?_⟩ <;> simp [init]
-
-theorem orphan_step {s s' : Sys} {op : Op} (hr : RoleInv s) (ho : Orphan s) (h : step s op = some s') :
-    Orphan s' := by
-  obtain ⟨h1, h2, h3, h4, h5⟩ := hr
-  obtain ⟨hm, hn⟩ := ho
-  cases op <;> step_cases h <;>
-    (refine ⟨?_, ?_⟩ <;> frame_goal <;> (try (intro q a y hq; frame_simp at hq)) <;> grind [owns, holds, SubP.load])
-
-end Jade.Sys
-
-namespace Jade.Sys
-
-set_option maxHeartbeats 4000000 in
-theorem batchInv_loc_step {s s' : Sys} {op : Op} (hi : BatchInv s) (h : step s op = some s') :
-    (∀ q a y, s'.procs q = .sub a y → holds y.pc = true → ∀ j, s'.disk.st j ≠ .ns → y.loc.st j ≠ .ns) ∧
-    (∀ q a y, s'.procs q = .sub a y → holds y.pc = true → s'.disk.bidx ≤ y.bidx) ∧
-    (∀ q a y, s'.procs q = .sub a y → holds y.pc = true → y.pend = [] → y.bidx = s'.disk.bidx) := by
-  obtain ⟨⟨h1, h2, h3, h4, h5⟩, l1, l2, l3, -, -, -, -⟩ := hi
-  cases op <;> step_cases h <;>
-    (refine ⟨?_, ?_, ?_⟩ <;> intro q a y hq <;> frame_simp at hq <;>
-      grind [holds, SubP.load, persistStatus, List.append_eq_nil_iff])
-
-end Jade.Sys
-
-namespace Jade.Sys
-
-theorem freshHid_some_iff (s : Sys) (x : SubP) (h : Hid) :
-    freshHid s x (some h) = true ↔ (s.slurm h = none ∧ h ∉ x.out) := by
-  simp [freshHid]
-
-macro "frame_all" : tactic => `(tactic|
-  try simp only [freshHid_some_iff, holderPend, holderBidx, holderSub, Orphan, procs_setSub, procs_setNode, procs_setProc, setSub_fields,
-    setNode_fields, setProc_fields] at *)
-
-set_option maxHeartbeats 8000000 in
-theorem batchInv_jobs_step {s s' : Sys} {op : Op} (hi : BatchInv s) (h : step s op = some s') :
-    (∀ b ∈ s'.batches, ∀ j ∈ b.jobs, s'.disk.st j ≠ .ns ∨ j ∈ holderPend s' ∨ Orphan s') := by
-  have hO : Orphan s → Orphan s' := fun ho => orphan_step hi.role ho h
-  obtain ⟨⟨h1, h2, h3, h4, h5⟩, l1, l2, l3, bj, bi, -, -⟩ := hi
-  cases op <;> step_cases h <;>
-    (intro b hb j hj <;> frame_all <;>
-      grind [holds, SubP.load, persistStatus, owns])
-
-end Jade.Sys
-
-namespace Jade.Sys
-
-set_option maxHeartbeats 8000000 in
-theorem batchInv_ids_step {s s' : Sys} {op : Op} (hi : BatchInv s) (h : step s op = some s') :
-    (∀ b ∈ s'.batches, b.bid < s'.disk.bidx ∨ b.bid < holderBidx s' ∨ Orphan s') := by
-  have hO : Orphan s → Orphan s' := fun ho => orphan_step hi.role ho h
-  obtain ⟨⟨h1, h2, h3, h4, h5⟩, l1, l2, l3, bj, bi, -, -⟩ := hi
-  cases op <;> step_cases h <;>
-    (intro b hb <;> frame_all <;>
-      grind [holds, SubP.load, persistStatus, owns])
-
-/-- what the role holder is about to hand out is new: no job of it is in an earlier batch and its
-    batch index was never used (the heart of C01) -/
-theorem sbatch_fresh {s : Sys} {p : Pid} {x : SubP} {jobs : List JobId} (hi : BatchInv s)
-    (hp : s.procs p = .sub true x) (hpc : x.pc = .marked)
-    (hg : ∀ j ∈ jobs, x.loc.st j = .ns ∧ j ∉ x.pend) :
-    (∀ j ∈ jobs, j ∉ s.batches.flatMap (·.jobs)) ∧ x.bidx ∉ s.batches.map (·.bid) := by
-  obtain ⟨⟨h1, h2, h3, h4, h5⟩, l1, l2, l3, bj, bi, -, -⟩ := hi
-  have hh : holds x.pc = true := by rw [hpc]; rfl
-  have hsub : s.submitter = some p := h1 p true x hp hh
-  have hhs : holderSub s = some x := by simp [holderSub, hsub, hp]
-  have hown : owns true x = true := by
-    have := h3 p true x hp (Or.inl hpc)
-    simp [owns, this, hpc]
-  have hno : ¬ Orphan s := fun ho => by
-    have := ho.2 p true x hp
-    rw [hown] at this; cases this
-  constructor
-  · intro j hj hmem
-    obtain ⟨b, hb, hjb⟩ := List.mem_flatMap.1 hmem
-    rcases bj b hb j hjb with hd | hpnd | ho
-    · exact l1 p true x hp hh j hd (hg j hj).1
-    · simp only [holderPend, hhs] at hpnd
-      exact (hg j hj).2 hpnd
-    · exact hno ho
-  · intro hmem
-    obtain ⟨b, hb, hbid⟩ := List.mem_map.1 hmem
-    have hbid' : b.bid = x.bidx := hbid
-    rcases bi b hb with hd | hpnd | ho
-    · have := l2 p true x hp hh
-      have h' : b.bid < x.bidx := Nat.lt_of_lt_of_le hd this
-      rw [hbid'] at h'; exact Nat.lt_irrefl _ h'
-    · simp only [holderBidx, hhs] at hpnd
-      rw [hbid'] at hpnd; exact Nat.lt_irrefl _ hpnd
-    · exact hno ho
-
-theorem nodup_snoc {bs : List Batch} {b : Batch} (n1 : (bs.flatMap (·.jobs)).Nodup)
-    (n2 : (bs.map (·.bid)).Nodup) (hnd : b.jobs.Nodup) (f1 : ∀ j ∈ b.jobs, j ∉ bs.flatMap (·.jobs))
-    (f2 : b.bid ∉ bs.map (·.bid)) :
-    ((bs ++ [b]).flatMap (·.jobs)).Nodup ∧ ((bs ++ [b]).map (·.bid)).Nodup := by
-  constructor
-  · simp only [List.flatMap_append, List.flatMap_cons, List.flatMap_nil, List.append_nil]
-    rw [List.nodup_append]
-    exact ⟨n1, hnd, fun a ha c hc hac => f1 c hc (hac ▸ ha)⟩
-  · simp only [List.map_append, List.map_cons, List.map_nil]
-    rw [List.nodup_append]
-    refine ⟨n2, by simp, ?_⟩
-    intro a ha c hc hac
-    simp only [List.mem_singleton] at hc
-    subst hc; subst hac
-    exact f2 ha
-
-set_option maxHeartbeats 8000000 in
-theorem batchInv_nodup_step {s s' : Sys} {op : Op} (hi : BatchInv s) (h : step s op = some s') :
-    (s'.batches.flatMap (·.jobs)).Nodup ∧ (s'.batches.map (·.bid)).Nodup := by
-  have n1 := hi.jobsNodup
-  have n2 := hi.idsNodup
-  cases op <;> step_cases h <;> frame_all <;>
-    first
-    | exact ⟨n1, n2⟩
-    | (rename_i hA hB
-       first
-       | (obtain ⟨hpc, -, -, hnd, -, hg, -⟩ := hA
-          obtain ⟨f1, f2⟩ := sbatch_fresh hi hB hpc (fun j hj => ⟨(hg j hj).1, (hg j hj).2.1⟩)
-          exact nodup_snoc n1 n2 hnd f1 f2)
-       | (obtain ⟨hpc, -, -, hnd, -, hg, -⟩ := hB
-          obtain ⟨f1, f2⟩ := sbatch_fresh hi hA hpc (fun j hj => ⟨(hg j hj).1, (hg j hj).2.1⟩)
-          exact nodup_snoc n1 n2 hnd f1 f2))
 
 theorem batchInv_step {s s' : Sys} {op : Op} (hi : BatchInv s) (h : step s op = some s') : BatchInv s' := by
   obtain ⟨l1, l2, l3⟩ := batchInv_loc_step hi h
@@ -296,4 +26,3 @@ theorem batchInv_run {s s' : Sys} (ops : List Op) (hi : BatchInv s) (h : run s o
     · cases h
 
 end Jade.Sys
-
